@@ -94,6 +94,10 @@ class Engine(ExprMixin, CallMixin, StmtMixin, Core):
     def entry(self):
         f, t = self.func, self.target
         st = State()
+        for f_ in self.spec.folds:
+            # fold axioms at the empty sequence (definitional)
+            e_ = z3.Empty(f_.sort.z3())
+            st.assume(f_.f(e_) == 0 if f_.kind == "sum" else f_.f(e_))
         for g, so in self.spec.ghosts.items():
             st.ghost[g] = self.fresh(so, "g_" + g, st)
         if t.generator is not None:
